@@ -174,7 +174,7 @@ def r_dlink(ctx, prog):
         if f is None:
             continue
         n += 1
-        tt = Terms(f)
+        tt = Terms(f, forward=True)      # forwarded: "e->left = m->next_free" must see the OLD head of the free list
         e = ('param', 1)
         un = set()
         push = False
@@ -323,3 +323,120 @@ def r_pairswap(ctx, prog):
     ctx.instance(R, ok, (mrow or ctab or [(0, 0, 0, f)])[0][3] if (mrow or ctab) else f, 'forward_elimination:swap',
                  'matrix rows are exchanged at %s but the right-hand sides at %s: an equation keeps the wrong constant term' %
                  ([(b, show(x), show(y)) for b, x, y, _ in mrow], [(b, show(x), show(y)) for b, x, y, _ in ctab]))
+
+
+# ------------------------------------------------------------------ R-ROWCOL-SYMMETRY / R-BLOCKCHAIN / R-SCRATCH-RESET
+def r_rowcol_symmetry(ctx, prog):
+    """In find / insert the row-wise and the column-wise searches are mirror images: the comparisons of an entry's column with
+    the wanted column and of an entry's row with the wanted row use the same predicates the same number of times."""
+    R = 'R-ROWCOL-SYMMETRY'
+    ctx.rule(R, 'sibling agreement inside the sparse matrix: the row-dimension and column-dimension searches of find/insert compare '
+             'with the same predicates', floor=2)
+    from .ir import SWAP
+    u = [x for x in prog.units if x.name == 'of_matrix_sparse.c']
+    ctx.need(u, R, 'unit missing')
+    for name in ('of_mod2sparse_find', 'of_mod2sparse_insert'):
+        f = u[0].functions.get(name)
+        ctx.need(f is not None, R, '%s missing' % name)
+        tt = Terms(f)
+        preds = {'row': [], 'col': []}
+        for i in f.all_insts():
+            if i.op != 'icmp':
+                continue
+            a, b = tt.term(i.ops[0]), tt.term(i.ops[1])
+            for (x, y, p) in ((a, b, i.pred), (b, a, SWAP[i.pred])):
+                if x[0] in ('load', 'load@') and x[1][0] == 'field' and x[1][2] in ('row', 'col') and x[1][1][0] != 'param':
+                    want = ('param', 1) if x[1][2] == 'row' else ('param', 2)
+                    if y == want:
+                        preds[x[1][2]].append(p.replace('u', 's') if p[0] == 'u' else p)
+        ok = sorted(preds['row']) == sorted(preds['col']) and preds['row']
+        ctx.instance(R, bool(ok), f, name + ':mirror',
+                     '%s compares entry rows with %s but entry columns with %s: the two dimensions no longer search alike' %
+                     (name, sorted(preds['row']), sorted(preds['col'])))
+
+
+def r_blockchain(ctx, prog):
+    R = 'R-BLOCKCHAIN'
+    ctx.rule(R, 'a fresh entry block becomes the head of of_mod2sparse.blocks only after its `next` link received the old head '
+             '(otherwise earlier blocks become unreachable and are never freed)', floor=1)
+    n = 0
+    for f in prog.all_functions:
+        if f.unit.name != 'of_matrix_sparse.c':
+            continue
+        tt = Terms(f)
+        for i in f.all_insts():
+            if i.op == 'store' and addr_root(tt.term(i.ops[1])) == ('field', 'blocks'):
+                v = tt.term(i.ops[0])
+                if v[0] == 'call' and v[1] in ALLOCATORS:
+                    n += 1
+                    base = tt.term(i.ops[1])[1]
+                    link = [s2 for s2 in f.all_insts() if s2.op == 'store' and tt.term(s2.ops[1])[0] == 'field' and
+                            tt.term(s2.ops[1])[1] == v and tt.term(s2.ops[1])[2] == 'next' and
+                            is_field_load(tt.term(s2.ops[0]), 'blocks', None) and f.dominates(s2, i)]
+                    ctx.instance(R, bool(link), i, '%s:chain' % f.name,
+                                 '%s makes a new block the head of the block list without linking it to the previous head' % f.name)
+    ctx.need(n >= 1, R, 'no block allocation found')
+
+
+def r_scratch_reset(ctx, prog):
+    R = 'R-SCRATCH-RESET'
+    ctx.rule(R, 'the solver\'s scratch list (tmp_tab_symbols / nb_tmp_symbols) is emptied before it is filled: every append is '
+             'dominated by a reset of the counter in the same routine, and no reset lies between an append and its consumer', floor=2)
+    n = 0
+    for f in prog.all_functions:
+        tt = Terms(f)
+        appends = [i for i in f.all_insts() if i.op == 'store' and addr_root(tt.term(i.ops[1])) == ('elems', 'tmp_tab_symbols')]
+        if not appends:
+            continue
+        resets = [i for i in f.all_insts() if i.op == 'store' and addr_root(tt.term(i.ops[1])) == ('field', 'nb_tmp_symbols')
+                  and const_of(i.ops[0]) == 0]
+        for a in appends:
+            n += 1
+            ok = any(f.dominates(r, a) for r in resets)
+            ctx.instance(R, ok, a, '%s:append' % f.name,
+                         '%s appends to the scratch list without having emptied it first in this routine: entries left by an earlier '
+                         'solve are processed again' % f.name)
+    ctx.need(n >= 2, R, 'scratch list appends not found')
+
+
+def r_dense_rowfill(ctx, prog):
+    R = 'R-DENSE-ROWFILL'
+    ctx.rule(R, 'every dense-matrix routine that overwrites the words of a destination row in a loop writes it up to the destination\'s '
+             'own word count (a row is never left with stale words beyond a narrower source)', floor=3)
+    n = 0
+    for f in prog.all_functions:
+        if f.unit.name != 'of_matrix_dense.c':
+            continue
+        tt = Terms(f)
+        per_dst = {}
+        for lp in f.loops.values():
+            lr = loop_range(f, lp, tt)
+            if lr is None:
+                continue
+            for bid in lp.blocks:
+                if f.bmap[bid].loop != lp.header.id:
+                    continue
+                for i in f.bmap[bid].insts:
+                    if i.op != 'store':
+                        continue
+                    a = tt.term(i.ops[1])
+                    # X->row[j][k]
+                    if a[0] == 'elem' and a[1][0] in ('load', 'load@') and a[1][1][0] == 'elem' and \
+                            is_field_load(a[1][1][1], 'row', None) and a[1][1][1][1][1][0] == 'param':
+                        base = a[1][1][1][1][1]
+                        per_dst.setdefault((base, a[1][1][2]), []).append((lr, i))      # per destination matrix and row index
+        for (base, rowidx), lst in per_dst.items():
+            n += 1
+            bounds = set()
+            for lr, i in lst:
+                bounds.add(lr.bound)
+            want = ('load', ('field', base, 'n_words', 8))
+            ok = any(_same_field(b, base, 'n_words') for b in bounds)
+            ctx.instance(R, ok, lst[0][1], '%s:arg%d:row[%s]' % (f.name, base[1], _short(rowidx)),
+                         '%s overwrites rows of its matrix argument %d word by word but never up to that matrix\'s own n_words '
+                         '(loop bounds: %s): words beyond a narrower source keep stale bits' % (f.name, base[1], sorted(show(b) for b in bounds)))
+    ctx.need(n >= 3, R, 'only %d row-overwriting routines found' % n)
+
+
+def _same_field(t, base, name):
+    return t[0] in ('load', 'load@') and t[1][0] == 'field' and t[1][1] == base and t[1][2] == name
